@@ -359,8 +359,11 @@ def runQuery (T : STree) (nm : Naming) (inp : Input) (H? : Option Ham) (q : SExp
     | none => o.put "atlevel" (k ++ "@" ++ taxS (decTaxon g) ++ "=nokey")
   | .list (.atom "session" :: ops), some H =>
     let ops' := ops.filterMap (decOp H)
-    let outs := (run (SState.init H) ops').2
-    (List.zip (List.range outs.length) outs).foldl (fun o e => o.put "session" (toString e.1 ++ ":" ++ outS H e.2)) o
+    let fin := run (SState.init H) ops'
+    let outs := fin.2
+    let o := (List.zip (List.range outs.length) outs).foldl (fun o e => o.put "session" (toString e.1 ++ ":" ++ outS H e.2)) o
+    -- the taxa that carry a genome after the call sequence (get_list_extant_genomes + get_list_ancestral_genomes)
+    o.put "listing" (",".intercalate (sortS ((dedup fin.1.listing).map taxS)))
   | .list [.atom "lookup", .atom kind, .str k], some H =>
     let r := match kind with
       | "gene" => errS (fun (g : GeneRec) => g.id ++ "@" ++ g.species) (H.geneById k)
